@@ -241,6 +241,10 @@ class C12(BlockBase):
     def region_first_line_unwrap(self, case, verdict):
         return self.first_line_unwrap(case.meta["_layout"])
 
+    def region_indented_ready_tag_on_line_1(self, case, verdict):
+        lay = case.meta["_layout"]
+        return bool(lay) and lay[0].removed and lay[0].text[:1] in (" ", "\t") and not self.first_line_unwrap(lay)
+
 
 # ============================================================================================ C13
 class C13(BlockBase):
